@@ -182,7 +182,7 @@ class C16(core.Check):
             yield dict(fam='direct', s=rnd.getrandbits(48), ctx=rnd.choice([-1, 0, 1, 2, 5, 10]))
         for i in range(nsh):
             yield dict(fam='shell', s=rnd.getrandbits(48), ctx=rnd.choice([-1, 0, 1, 2, 5]),
-                       files=rnd.choice([1, 1, 1, 2]), latex=rnd.random() < .3)
+                       files=rnd.choice([1, 1, 2, 2, 3]), latex=rnd.random() < .3)
 
     def judge(self, case):
         rnd = random.Random(case['s'])
@@ -218,7 +218,7 @@ class C16(core.Check):
         # through the real shell
         files = {}
         plans = []
-        names = ['f.tex', 'g<&>.tex'][:case['files']]
+        names = ['f.tex', 'g<&>.tex', 'h.tex'][:case['files']]
         for name in names:
             src = gen_source(rnd)
             if case['latex']:
@@ -261,6 +261,33 @@ class C16(core.Check):
                 detail['html'] = html_text[:1500]
                 return dict(ok=False, nt=True, key='shell:' + pr[0], cnt=cnt, obs=None, detail=detail)
             cnt['shell_reports_fully_checked'] = 1
+        elif not case['latex']:
+            # several plain-input files: the report has one part per file (separated by <hr><hr>), each is
+            # checked completely against its own file with the same context size
+            chunks = html_text.split('<hr><hr>\n')
+            chunks = [c for c in chunks if '<H3>Index</H3>' not in c] if len(names) > 1 else chunks
+            if len(chunks) != len(names):
+                detail.update(parts=len(chunks), html=html_text[:1200])
+                return dict(ok=False, nt=True, key='shell:file-parts', cnt=cnt, obs=None, detail=detail)
+            ncall = 0
+            for ci, (name, chunk) in enumerate(zip(names, chunks)):
+                tex_ = files[name]
+                if tex_.strip():
+                    ms = [(min(o, len(tex_)), max(0, min(ln, len(tex_) - min(o, len(tex_)))), '%d.%d' % (ncall, k))
+                          for k, (o, ln) in enumerate(pairs)]
+                    ncall += 1
+                else:
+                    ms = []         # a blank file is not submitted to the proofreader
+                pr = check_report('<html><body>' + chunk.replace('</body>', '').replace('</html>', '') + '</body></html>'
+                                  if '<html>' not in chunk else chunk, tex_, ms,
+                                  case['ctx'] if case['ctx'] >= 0 else int(1e8), r'MSG(\d+\.\d+):', cnt)
+                if pr:
+                    detail.update(pr[1])
+                    detail.update(file=name, file_index=ci, html=chunk[:1500])
+                    return dict(ok=False, nt=True, key='shell:file%d:%s' % (min(ci, 1), pr[0]), cnt=cnt, obs=None,
+                                detail=detail)
+            cnt['index_pages'] = 1
+            cnt['multi_file_reports_fully_checked'] = 1
         else:
             # several files / LaTeX input: structure, every match id of every call exactly once
             ids = collections.Counter()
@@ -283,7 +310,7 @@ class C16(core.Check):
     def quotas(self, tier):
         return {'fam_direct': 3000, 'rows_checked': 10000, 'matches_in_place': 3000, 'matches_in_overlap_list': 500,
                 'matches_split_over_lines': 100, 'whole_file_reports': 300, 'shell_reports': 60,
-                'shell_reports_fully_checked': 30, 'index_pages': 10}
+                'shell_reports_fully_checked': 30, 'index_pages': 10, 'multi_file_reports_fully_checked': 20}
 
 
 CHECK = C16
